@@ -1,6 +1,7 @@
 import Usid.Proofs.SubGrid
 import Usid.Model.SliceTo
 import Usid.Properties.C09
+import Usid.Properties.C08
 /-! Towards the coordinate theorem of C11: the pieces of `dimsForSlice` on a regular-grid side. -/
 namespace Usid.SliceTo
 open Usid Usid.Grid Usid.UV Usid.SubGrid Usid.Slice Usid.Dims Usid.C09
@@ -501,5 +502,126 @@ theorem dimsForSlice_grid (sz : Nat → Nat) (rate : List Nat) (k : Nat) (V : Na
     intro d hd
     have hdk : d < k := List.mem_range.mp (hperm.subset (List.mem_filter.mp hd).1)
     rw [hlook d hdk]
+
+/-- dropping single-valued dimensions does not change a stride -/
+theorem stride_keptRate (sz : Nat → Nat) (rate : List Nat) (sels : List (List Nat)) (pre post : List Nat) (d : Nat)
+    (e : rate = pre ++ d :: post) (hpos : ∀ x ∈ rate, 0 < subSize sz sels x) :
+    ((pre.filter (fun x => decide (subSize sz sels x ≥ 2))).map (subSize sz sels)).prod = ((pre.map (subSize sz sels)).prod) := by
+  have hp : ∀ x ∈ pre, 1 ≤ subSize sz sels x := fun x hx => hpos x (e ▸ List.mem_append_left _ hx)
+  rw [prod_filter_big (subSize sz sels) pre hp]
+  have hf : pre.filter (fun x => decide (subSize sz sels x ≥ 2)) = pre.filter (fun x => decide (1 < subSize sz sels x)) := by
+    apply List.filter_congr
+    intro x _
+    by_cases h : subSize sz sels x ≥ 2
+    · have : 1 < subSize sz sels x := by omega
+      simp [h, this]
+    · have : ¬ 1 < subSize sz sels x := by omega
+      simp [h, this]
+  rw [hf]
+
+/-- **Coordinates of the rebuilt side.**  For every dimension `d` that remains multi-valued there is a stored
+    row `j` of the freshly written ancillaries carrying the label and unit of `d`, and at every column `i`
+    (the i-th selected row of the source, in increasing order) its value is the source's value of `d` at
+    that row.  So every selected element keeps the value of every remaining dimension. -/
+theorem written_side_values (sz : Nat → Nat) (rate : List Nat) (k : Nat) (V : Nat → List Int) (sels : List (List Nat))
+    (labels units : List String) (hperm : rate.Perm (List.range k)) (hk : sels.length = k)
+    (hsel : ∀ d ∈ rate, 0 < subSize sz sels d) (d : Nat) (hd : d ∈ keptRate sz rate sels) :
+    let dims := (keptRate sz rate sels).map (fun d =>
+      ({ name := labels.getD d "", units := units.getD d "", values := Wsel sz (selPred sels) V d } : Usid.Anc.Dim))
+    let w := Usid.Anc.writeIndVal dims false
+    let rows := selectedRows (pointMatrix sz rate k) sels
+    ∃ (j : Nat) (rv : List Int), w.labels[j]? = some (labels.getD d "") ∧ w.units[j]? = some (units.getD d "") ∧
+      w.values[j]? = some rv ∧
+      ∀ i, i < rows.length → rv[i]? = some (((pointValues sz rate k V).getD (rows.getD i 0) []).getD d 0) := by
+  intro dims w rows
+  have hnd : rate.Nodup := hperm.nodup_iff.mpr List.nodup_range
+  have hdr : d ∈ rate := (List.mem_filter.mp hd).1
+  have hdk : d < k := List.mem_range.mp (hperm.subset hdr)
+  have hbig : subSize sz sels d ≥ 2 := by have := (List.mem_filter.mp hd).2; simpa using this
+  -- split the rate order (and with it the kept list) at d
+  obtain ⟨pre, post, e, hpre⟩ := split_of_mem rate d hdr
+  have hkr : keptRate sz rate sels = pre.filter (fun x => decide (subSize sz sels x ≥ 2)) ++
+      d :: post.filter (fun x => decide (subSize sz sels x ≥ 2)) := by
+    unfold keptRate
+    rw [e, List.filter_append, List.filter_cons]
+    simp [hbig]
+  let preK := pre.filter (fun x => decide (subSize sz sels x ≥ 2))
+  let postK := post.filter (fun x => decide (subSize sz sels x ≥ 2))
+  let mk : Nat → Usid.Anc.Dim := fun d =>
+    { name := labels.getD d "", units := units.getD d "", values := Wsel sz (selPred sels) V d }
+  have hdims : dims = preK.map mk ++ mk d :: postK.map mk := by
+    show (keptRate sz rate sels).map mk = _
+    rw [hkr]; simp [preK, postK]
+  have hrev : dims.reverse = (postK.map mk).reverse ++ mk d :: (preK.map mk).reverse := by
+    rw [hdims]; simp
+  have hj : (postK.map mk).reverse.length < dims.reverse.length := by rw [hrev]; simp
+  have hposd : ∀ dm ∈ dims, 0 < dm.values.length := by
+    intro dm hdm
+    obtain ⟨x, hx, rfl⟩ := List.mem_map.mp hdm
+    simp only [Wsel, List.length_map]
+    exact hsel x (List.mem_filter.mp hx).1
+  have hWlen : ∀ x, (mk x).values.length = subSize sz sels x := by intro x; simp [mk, Wsel, s', subSize]
+  have hprodAll : (dims.reverse.map (fun dm => dm.values.length)).prod = (rate.map (subSize sz sels)).prod := by
+    rw [List.map_reverse, (List.reverse_perm _).prod_nat]
+    show (((keptRate sz rate sels).map mk).map (fun dm => dm.values.length)).prod = _
+    rw [List.map_map]
+    have : (fun dm => dm.values.length) ∘ mk = subSize sz sels := by funext x; exact hWlen x
+    rw [this]
+    unfold keptRate
+    have := prod_filter_big (subSize sz sels) rate (fun x hx => hsel x hx)
+    rw [this]
+    have hf : rate.filter (fun x => decide (subSize sz sels x ≥ 2)) = rate.filter (fun x => decide (1 < subSize sz sels x)) := by
+      apply List.filter_congr
+      intro x _
+      by_cases h : subSize sz sels x ≥ 2
+      · have : 1 < subSize sz sels x := by omega
+        simp [h, this]
+      · have : ¬ 1 < subSize sz sels x := by omega
+        simp [h, this]
+    rw [hf]
+  have hrowsEq : rows = (List.range (rate.map (subSize sz sels)).prod).map (rho sz (selPred sels) rate) :=
+    selectedRows_eq sz rate k sels hperm hk
+  have hrowslen : rows.length = (rate.map (subSize sz sels)).prod := by rw [hrowsEq]; simp
+  -- C08 on the reversed list at the position of d
+  have hDj : dims.reverse[(postK.map mk).reverse.length]'hj = mk d := by
+    simp only [hrev]
+    rw [List.getElem_append_right (by omega)]
+    simp
+  have hdrop : ((dims.reverse.drop ((postK.map mk).reverse.length + 1)).map (fun dm => dm.values.length)).prod =
+      strideBefore (subSize sz sels) rate d := by
+    have hd' : ∀ (A B : List Usid.Anc.Dim) (x : Usid.Anc.Dim), (A ++ x :: B).drop (A.length + 1) = B := by
+      intro A B x; simp
+    rw [hrev, hd', List.map_reverse, (List.reverse_perm _).prod_nat, List.map_map]
+    have : (fun dm => dm.values.length) ∘ mk = subSize sz sels := by funext x; exact hWlen x
+    rw [this, e, stride_split _ pre post d hpre]
+    exact stride_keptRate sz rate sels pre post d e hsel
+  refine ⟨(postK.map mk).reverse.length, ?_⟩
+  -- use any column (0) to extract the row lists from C08, then the per-column statement
+  have hN' : 0 < (rate.map (subSize sz sels)).prod := prod_pos_of_forall _ rate hsel
+  obtain ⟨hlab, hun, ri0, rv, h1, h2, _, _⟩ := Usid.C08.written_slowest_first dims false (postK.map mk).reverse.length 0 hposd
+    dims.reverse (by simp) hj (by rw [hprodAll]; exact hN')
+  refine ⟨rv, ?_, ?_, h2, ?_⟩
+  · show (Usid.Anc.writeIndVal dims false).labels[_]? = _
+    rw [hlab, List.getElem?_map, List.getElem?_eq_getElem hj, hDj]; rfl
+  · show (Usid.Anc.writeIndVal dims false).units[_]? = _
+    rw [hun, List.getElem?_map, List.getElem?_eq_getElem hj, hDj]; rfl
+  · intro i hi
+    rw [hrowslen] at hi
+    obtain ⟨_, _, ri', rv', _, h2', _, h4⟩ := Usid.C08.written_slowest_first dims false (postK.map mk).reverse.length i hposd
+      dims.reverse (by simp) hj (by rw [hprodAll]; exact hi)
+    have hsame : rv' = rv := by rw [h2] at h2'; injection h2' with h; exact h.symm
+    rw [← hsame, h4, hdrop, hDj, hWlen d]
+    -- the value: W_d at the sub-grid digit = V_d at the source index of the i-th selected row
+    have hri : rows.getD i 0 = rho sz (selPred sels) rate i := by
+      rw [hrowsEq, List.getD_eq_getElem?_getD, List.getElem?_map, List.getElem?_range hi]; rfl
+    have hrl := rho_lt sz (selPred sels) rate hnd i hi
+    have e1 : ((pointValues sz rate k V).getD (rho sz (selPred sels) rate i) []).getD d 0 =
+        (V d).getD (gridIdx sz rate (rho sz (selPred sels) rate i) d) 0 := by
+      simp [pointValues, List.getD_eq_getElem?_getD, List.getElem?_range hrl, List.getElem?_range hdk]
+    rw [hri, e1, gridIdx_rho sz (selPred sels) rate hnd i d hdr hi]
+    have hdig : i / strideBefore (subSize sz sels) rate d % subSize sz sels d < (L sz (selPred sels) d).length :=
+      Nat.mod_lt _ (hsel d hdr)
+    show (Wsel sz (selPred sels) V d)[_]? = _
+    simp [Wsel, List.getElem?_map, List.getElem?_eq_getElem hdig, List.getD_eq_getElem?_getD, subSize]
 
 end Usid.SliceTo
